@@ -1,5 +1,5 @@
 import sys, subprocess, collections
-sys.path.insert(0, '.')
+sys.path.insert(0, '.')  # run from the repository root
 from vlib.rng import Rng
 import props.c09 as p
 tier = sys.argv[1] if len(sys.argv) > 1 else "quick"
